@@ -34,9 +34,14 @@ type pipeItem struct {
 	Acls int
 	Opt  *webp.EncoderOptions
 	Idx  int
+	Wide bool   // wide-row item: Cls is a cheap content class of thresholds.go (GenCheapImage)
+	Thr  string // distribution tag of the threshold the size sits at ("" = none)
 }
 
 func (it *pipeItem) image(seed uint64) *image.NRGBA {
+	if it.Wide {
+		return GenCheapImage(NewRNG(seed^0xc13d, uint64(it.W*1000+it.H*7+it.Cls*31+it.Acls)), it.W, it.H, it.Cls, it.Acls)
+	}
 	return GenImage(NewRNG(seed^0xc13, uint64(it.W*1000+it.H*7+it.Cls*31+it.Acls)), it.W, it.H, it.Cls, it.Acls)
 }
 
@@ -106,7 +111,49 @@ func pipeOptions() (lossy, lossless []pipeOpt) {
 	return
 }
 
-func pipelineGrid(tier string) []pipeItem {
+// pipeWideSizes: lossy stills WITH alpha (the only decode path that returns *image.NRGBA through the fancy
+// upsampler's line-pair wrapper) wider than the wrapper's 2048 / 4096 scratch limits, colour changing along the row.
+// Heights: 2 = two single lines (no pair), 3 = one single line + one pair.
+var pipeWideSizes = [][2]int{{2049, 3}, {2050, 2}, {4097, 2}, {4100, 3}}
+
+// pipeWideItems: the fixed wide sizes plus a few width thresholds of thresholds.go (>= 1000) drawn per seed.
+func pipeWideItems(tier string, seed uint64) []pipeItem {
+	type wi struct {
+		w, h int
+		thr  string
+		desc string
+	}
+	var ws []wi
+	for _, d := range pipeWideSizes {
+		thr := "threshold:2048width"
+		if d[0] > 3000 {
+			thr = "threshold:4096width"
+		}
+		ws = append(ws, wi{d[0], d[1], thr, ""})
+	}
+	k := 4
+	if tier == "thorough" {
+		k = 16
+	}
+	for _, tc := range DrawThresholdCases(seed, 0xc13, k, ThresholdFilter{Units: []string{"width"}, MinValue: 1000, MaxPixels: 70000, Tiny: []int{2, 3, 4}}) {
+		ws = append(ws, wi{tc.W, tc.H, tc.Tag(), " " + tc.String()})
+	}
+	acls := []int{AlphaGradient, AlphaBinary, AlphaFewLevels, AlphaSemiFlat}
+	var items []pipeItem
+	for j, x := range ws {
+		kind, a := []int{CheapGradient, CheapRows}[j%2], acls[j%len(acls)]
+		o := webp.DefaultOptions()
+		name := "m4"
+		if j%3 == 2 {
+			o.AlphaCompression = 0
+			name = "alpha-raw"
+		}
+		items = append(items, pipeItem{ID: cheapDesc(x.w, x.h, kind, a) + "/" + name + x.desc, W: x.w, H: x.h, Cls: kind, Acls: a, Opt: o, Wide: true, Thr: x.thr})
+	}
+	return items
+}
+
+func pipelineGrid(tier string, seed uint64) []pipeItem {
 	type im struct{ w, h, cls, acls int }
 	main := []im{{48, 40, ClsPhoto, AlphaNone}, {40, 33, ClsPhoto, AlphaGradient}}
 	rest := []im{{33, 17, ClsNoise, AlphaNone}, {64, 64, ClsGradient, AlphaNone}, {17, 9, ClsPal16, AlphaBinary},
@@ -140,6 +187,10 @@ func pipelineGrid(tier string) []pipeItem {
 				add(i, o)
 			}
 		}
+	}
+	for _, it := range pipeWideItems(tier, seed) {
+		it.Idx = len(items)
+		items = append(items, it)
 	}
 	return items
 }
@@ -264,7 +315,7 @@ func decodeSet(seed uint64, tier string, items []pipeItem, enc [][]byte) []pipeF
 		nNoise, nOther = 250, 12
 	}
 	for i, it := range items {
-		if enc[i] == nil || it.Opt.Lossless || it.W*it.H < 256 {
+		if enc[i] == nil || it.Opt.Lossless || it.W*it.H < 256 || it.Wide {
 			continue
 		}
 		n := nOther
@@ -336,7 +387,7 @@ func parallelFor(n int, f func(i int)) {
 }
 
 func pipelineLevel(rep *Report) *pipeResult {
-	res := &pipeResult{items: pipelineGrid(rep.Tier)}
+	res := &pipeResult{items: pipelineGrid(rep.Tier, rep.Seed)}
 	n := len(res.items)
 	cfgs := pipelineConfigs()
 	rep.Extra["pipeline_configs"] = cfgs
@@ -357,6 +408,10 @@ func pipelineLevel(rep *Report) *pipeResult {
 			kind = "lossless"
 		}
 		rep.Count("pipeline-encode/" + kind)
+		if it.Wide {
+			rep.Count("pipeline-encode/wide-row")
+			rep.Count(it.Thr)
+		}
 		rep.Eval(it.W*it.H > 1, []byte("enc|"+it.ID))
 		for _, cfg := range cfgs[1:] {
 			if lineBy[cfg][i] != res.encL[i] {
@@ -425,7 +480,7 @@ func decodeFinding(f pipeFile, cfg, a, b string) Finding {
 
 // pipelineChild: the same grid and (when the parent handed some over) the same files through this binary.
 func pipelineChild(rep *Report) {
-	items := pipelineGrid(rep.Tier)
+	items := pipelineGrid(rep.Tier, rep.Seed)
 	lines := make([]string, len(items))
 	parallelFor(len(items), func(i int) { _, lines[i] = encodeItem(rep.Seed, &items[i]) })
 	rep.Extra["penc"] = lines
@@ -582,7 +637,7 @@ func main() {
 }
 `
 
-var childFiles = map[string]bool{"common.go": true, "drv.go": true, "rng.go": true, "imggen.go": true,
+var childFiles = map[string]bool{"common.go": true, "drv.go": true, "rng.go": true, "imggen.go": true, "thresholds.go": true,
 	"suite_kernels.go": true, "suite_kernels_pipe.go": true, "suite_kernels_range.go": true}
 
 // childOverlay restricts cmd/vcheck to the kernels suite (and, for purego, also applies the module overlay).
